@@ -371,9 +371,20 @@ class Model:
             top = parent_now.split(".")[0]
             cls_prefix = parent_now.rsplit(".", 1)[0] if parent_now.count(".") >= 2 else None
             moved = []
+            hoisted = []
             for n in new:
                 fi = self.functions[n]
-                if n in self._aliases.values() or fi.parent is not None or fi.module != top:
+                if n in self._aliases.values() or fi.module != top:
+                    continue
+                if fi.parent is not None:
+                    # hoisted to an enclosing function (still a closure, one or more levels further out)
+                    if not parent_now.startswith(fi.parent + "."):
+                        continue
+                    ps = [x for x in params(fi)]
+                    if kparams[q] and ps[len(ps) - len(kparams[q]):] != kparams[q]:
+                        continue
+                    fp = set(fingerprint(fi.node))
+                    hoisted.append((len(ref & fp) / max(1, len(ref | fp)), n))
                     continue
                 new_cls = n.count(".") == 2 and n.rsplit(".", 1)[0] in self.classes and not any(k.startswith(n.rsplit(".", 1)[0] + ".") for k in kset)
                 if not (n.count(".") == 1 or (cls_prefix is not None and n.rsplit(".", 1)[0] == cls_prefix) or (nested_cls and n.count(".") == 2) or new_cls):
@@ -387,6 +398,10 @@ class Model:
                 fp = set(fingerprint(fi.node))
                 score = len(ref & fp) / max(1, len(ref | fp))
                 moved.append((score, n))
+            hoisted.sort(reverse=True)
+            if hoisted and hoisted[0][0] >= 0.5 and (len(hoisted) == 1 or hoisted[0][0] > hoisted[1][0]):
+                self._aliases[q] = hoisted[0][1]
+                continue
             moved.sort(reverse=True)
             if moved and moved[0][0] >= 0.5 and (len(moved) == 1 or moved[0][0] > moved[1][0]):
                 self._aliases[q] = moved[0][1]
